@@ -259,6 +259,35 @@ func runC10Case(c *fw.Ctx, id string, v refmatch.Variant, w window, pairs bool) 
 			}
 		}
 	}
+	if v.Proto == "sack" {
+		// the SYN-ACK never reaches the capture handle: the read deadline of the handshake is the failure
+		spec := defaultSpec(v, c.Worker, w.first, w.last)
+		if e, err := newSimEnv(c, spec, 0x10000000); err == nil {
+			e.peer.ShowSynAck = false
+			fd0 := fdCount()
+			_ = fd0
+			res := e.run(simplePathWin(v, w, w.first+3, true, 9*time.Millisecond))
+			synctest.Wait()
+			tag := id + " fault=handshake-deadline"
+			life, leaked := e.w.Lifecycle(), repoGoroutines()
+			runaway := e.handle != nil && e.handle.ReadOverrun
+			e.close()
+			switch {
+			case runaway:
+				c.Violate("C10", "fault-swallowed/"+v.Name+"/handshake-deadline", tag+": the expired handshake read deadline was not treated as a failure (the run kept reading until the harness stopped it)", nil)
+			case res.Err == nil:
+				c.Violate("C10", "fault-swallowed/"+v.Name+"/handshake-deadline", tag+": no SYN-ACK was captured but the run succeeded", fmtRun(res))
+			default:
+				c.Nontrivial(v.Name + "/handshake-deadline")
+			}
+			if len(life) > 0 {
+				c.Violate("C10", "lifecycle/"+v.Name+"/handshake-deadline", fmt.Sprintf("%s: %v", tag, life), nil)
+			}
+			if len(leaked) > 0 {
+				c.Violate("C10", "goroutine-leak/"+v.Name+"/handshake-deadline", fmt.Sprintf("%s: %d repository goroutine(s) alive after return", tag, len(leaked)), leaked)
+			}
+		}
+	}
 	if pairs {
 		r0 := c.Rng
 		for i := 0; i < 250; i++ {
